@@ -431,6 +431,41 @@ def relations(case, res, rng_seed=0):
             same(call(mod, np.broadcast_to(q, qshape_full).copy(), k, v, m), "broadcast-query", 1e-12)
         except Exception as e:
             fails.append(("broadcast-query", "raised " + exc_kind(e)))
+    # (6) the result is a function of the arguments' current contents and the module's current parameters - not of
+    #     earlier calls: the same tensor objects are passed again after being overwritten in place, and after the
+    #     parameters were changed and restored (a module that memoises projections or weights by object identity fails)
+    try:
+        tq, tk, tv = (torch.tensor(np.ascontiguousarray(x), dtype=torch.float64) for x in (q, k, v))
+        tm = None if m is None else torch.tensor(np.ascontiguousarray(m), dtype=torch.bool)
+        with torch.no_grad():
+            first = mod(tq, tk, tv, tm).numpy()
+            same(first, "repeat-call")
+            k3 = np.where(kept_k[..., None], -k, k) if kept_k.any() else -k
+            v3 = v + 1.0
+            tk.copy_(torch.tensor(np.ascontiguousarray(k3)))
+            tv.copy_(torch.tensor(np.ascontiguousarray(v3)))
+            again = mod(tq, tk, tv, tm).numpy()
+        fresh_mod, _ = build_entry(case)
+        fresh = call(fresh_mod, q, k3, v3, m)
+        d = np.abs(again - fresh)[defined] if again.shape == fresh.shape else np.array([np.inf])
+        if d.size and not (d <= 1e-9).all():
+            fails.append(("call-history", "same tensor objects overwritten in place between two calls: second result differs "
+                          f"from a fresh module on the new contents by {float(np.nanmax(d))}"))
+        if not case.get("script"):
+            sd = {n_: p_.clone() for n_, p_ in mod.state_dict().items()}
+            if sd:
+                with torch.no_grad():
+                    for p_ in mod.parameters():
+                        p_.mul_(-0.5)
+                    mod(tq, tk, tv, tm)
+                    mod.load_state_dict(sd)
+                    back = mod(tq, tk, tv, tm).numpy()
+                d = np.abs(back - fresh)[defined] if back.shape == fresh.shape else np.array([np.inf])
+                if d.size and not (d <= 1e-9).all():
+                    fails.append(("call-history", "parameters changed and restored between calls: result differs from a fresh "
+                                  f"module by {float(np.nanmax(d))}"))
+    except Exception as e:
+        fails.append(("call-history", "raised " + exc_kind(e) + ": " + str(e)[:80]))
     # (5) multi-head = project (bias where requested), wrapped attention per head, concat, project
     if case["flavour"] == "mha":
         mp, mats = case["mha"], mha_mats(case)
